@@ -85,3 +85,163 @@ Proof.
   destruct (br_batch b + 1 <? su_idx u) eqn:E4; [intros H; injection H as <- _ _; congruence|].
   intros H _. injection H as <- _ _. split; [reflexivity|]. apply Z.ltb_ge in E4. cbn [andb]. apply Z.leb_le. lia.
 Qed.
+
+(* ---------- C02 for blue-green: the whole step cursor ---------- *)
+Lemma br_ready_for_ext sp u1 u2 w br : su_idx u1 = su_idx u2 -> br_ready_for sp u1 w br = br_ready_for sp u2 w br.
+Proof. intros H. unfold br_ready_for. rewrite H. reflexivity. Qed.
+
+Lemma bg_upgrade_cursor sp u w br u' br' rq : bg_upgrade sp u w br = COut u' br' rq ->
+  su_idx u' = su_idx u /\ (su_state u' = su_state u \/ (su_state u' = StTraffic /\ br_ready_for sp u w br = true)).
+Proof.
+  intros H. assert (Hi : su_idx u' = su_idx u).
+  { revert H. unfold bg_upgrade. destruct br as [b|]; [|intros H; injection H as <- _ _; reflexivity].
+    destruct (negb (br_spec_eqb b _)); [intros H; injection H as <- _ _; reflexivity|].
+    destruct (negb (br_consistent b)); [intros H; injection H as <- _ _; reflexivity|].
+    destruct (negb (br_state_ready b) || _); intros H; injection H as <- _ _; reflexivity. }
+  split; [exact Hi|].
+  destruct (sstate_eqb (su_state u') (su_state u)) eqn:E.
+  - left. apply sstate_eqb_eq. exact E.
+  - right. apply (bg_upgrade_gated sp u w br u' br' rq H). intros Heq. rewrite Heq, sstate_eqb_refl in E. discriminate.
+Qed.
+
+Lemma bg_step_gated sp u w br cur u' br' rq :
+  get_step sp (su_idx u) = Some cur -> bg_step sp u w br cur = COut u' br' rq ->
+  (su_idx u' = su_idx u /\ su_state u' = su_state u) \/ gated_sub_bg sp u w br u' = true.
+Proof.
+  intros Hcur H. unfold bg_step in H. destruct (su_state u) eqn:Hst.
+  - (* Init: falls through into the upgrade *)
+    set (u1 := upd_sub u (su_idx u) (su_next u) StUpgrade (su_fin u) false) in *.
+    destruct (bg_upgrade_cursor sp u1 w br u' br' rq H) as [Hi [Hs|[Hs Hr]]]; right; unfold gated_sub_bg; rewrite Hst.
+    + rewrite Hs. change (su_state u1) with StUpgrade. rewrite Hi. change (su_idx u1) with (su_idx u). apply Z.eqb_refl.
+    + rewrite Hs, Hi. change (su_idx u1) with (su_idx u). rewrite Z.eqb_refl. cbn [andb].
+      rewrite (br_ready_for_ext sp u u1 w br) by reflexivity. exact Hr.
+  - destruct (bg_upgrade_cursor sp u w br u' br' rq H) as [Hi [Hs|[Hs Hr]]].
+    + left. rewrite Hs, Hst. auto.
+    + right. unfold gated_sub_bg. rewrite Hst, Hs, Hi, Z.eqb_refl. exact Hr.
+  - injection H as <- _ _. right. unfold gated_sub_bg. rewrite Hst. cbn. apply Z.eqb_refl.
+  - injection H as <- _ _. right. unfold gated_sub_bg. rewrite Hst. cbn. apply Z.eqb_refl.
+  - destruct (sp_pause cur) as [d|] eqn:Hp; [|injection H as <- _ _; left; auto].
+    destruct (su_elapsed u || (d <=? 0)) eqn:He; [|injection H as <- _ _; left; auto].
+    injection H as <- _ _. right. unfold gated_sub_bg. rewrite Hst. cbn. rewrite Z.eqb_refl, Hcur, Hp, He. reflexivity.
+  - destruct (su_idx u <? nsteps sp) eqn:E1; injection H as <- _ _; right; unfold gated_sub_bg; rewrite Hst; cbn.
+    + rewrite Z.eqb_refl, E1. reflexivity.
+    + rewrite Z.eqb_refl. cbn. apply Z.leb_le. apply Z.ltb_ge in E1. exact E1.
+  - injection H as <- _ _. left. auto.
+  - injection H as <- _ _. left. auto.
+Qed.
+
+Lemma gated_sub_bg_ext sp u1 u2 w br v : su_idx u1 = su_idx u2 -> su_state u1 = su_state u2 -> su_elapsed u1 = su_elapsed u2 ->
+  gated_sub_bg sp u1 w br v = gated_sub_bg sp u2 w br v.
+Proof. intros H1 H2 H3. unfold gated_sub_bg, br_ready_for. rewrite H1, H2, H3. reflexivity. Qed.
+
+Theorem run_bg_gated sp u w br u' br' rq :
+  run_bg sp u w br = COut u' br' rq ->
+  (su_next u = next_index (nsteps sp) (su_idx u) \/ su_next u <= 0) ->
+  (su_idx u' = su_idx u /\ su_state u' = su_state u) \/ gated_sub_bg sp u w (synced_br u br) u' = true.
+Proof.
+  intros H Hnext. unfold run_bg in H. destruct (sync_br u br) as [u1 brs] eqn:Hs.
+  pose proof (sync_fill_keeps u br w) as Hk. cbn zeta in Hk. rewrite Hs in Hk. cbn [fst] in Hk.
+  destruct Hk as [Hi [Hst [Hn [He _]]]].
+  pose proof (sync_br_is_synced u br) as Hsy. rewrite Hs in Hsy. cbn [snd] in Hsy. subst brs.
+  set (u2 := fill_pth u1 w) in *.
+  unfold do_jump in H. destruct (get_step sp (su_idx u2)) as [cur|] eqn:Hcur; [|discriminate].
+  assert (Hnj : negb (su_next u2 =? next_index (nsteps sp) (su_idx u2)) && (0 <? su_next u2) = false).
+  { rewrite Hn, Hi. destruct Hnext as [Hx|Hx]; [rewrite Hx, Z.eqb_refl; reflexivity|].
+    apply andb_false_iff. right. apply Z.ltb_ge. exact Hx. }
+  rewrite Hnj in H.
+  destruct (bg_step_gated sp u2 w (synced_br u br) cur u' br' rq Hcur H) as [[A B]|G].
+  - left. rewrite A, B. auto.
+  - right. rewrite <- (gated_sub_bg_ext sp u2 u w (synced_br u br) u' Hi Hst He). exact G.
+Qed.
+
+(* the canary branches the blue-green manager shares (paused, Completed) leave the cursor alone *)
+Lemma in_rolling_stays sp st s w br po u :
+  rp_sub st = Some u -> rp_sub s = Some (observed_sub w u) -> wl_canary w = su_canary_rev u ->
+  (sempty (su_hash u) = true \/ su_hash u = rs_hash sp) ->
+  (rs_paused sp = true \/ su_state (observed_sub w u) = StCompleted) ->
+  in_rolling sp st s w br = POk po -> rp_sub (po_status po) = Some (observed_sub w u).
+Proof.
+  intros Hu Hsome Hrev Hhash Hwhy Hp. unfold in_rolling in Hp. rewrite Hu, Hsome in Hp.
+  assert (Hrd : negb (String.eqb (wl_canary w) (su_canary_rev u)) = false) by (rewrite Hrev, String.eqb_refl; reflexivity).
+  rewrite Hrd in Hp. rewrite !andb_false_r in Hp. cbn [andb] in Hp.
+  destruct (rs_paused sp) eqn:Hpa.
+  { injection Hp as <-. cbn. exact Hsome. }
+  assert (Hhc : negb (sempty (su_hash u)) && negb (String.eqb (su_hash u) (rs_hash sp)) = false).
+  { destruct Hhash as [He|He]; [rewrite He; reflexivity|rewrite He, String.eqb_refl; apply andb_false_r]. }
+  rewrite Hhc in Hp. destruct Hwhy as [Hx|Hx]; [discriminate|]. rewrite Hx in Hp. cbn in Hp.
+  injection Hp as <-. cbn. exact Hsome.
+Qed.
+
+(* C02 (blue-green): while rolling, with no jump pending, the plan unchanged and the same revision being released, one
+   reconcile leaves the step cursor where it is or moves it along the blue-green gated path *)
+Theorem bg_steps_are_gated sp st w br m u x y :
+  reconcile_bg sp st w br = ROut m ->
+  rp_phase st = RpProgressing -> rs_deleting sp = false ->
+  rp_prog st = Some (PrInRolling, x, y) -> rp_sub st = Some u ->
+  (su_next u = next_index (nsteps sp) (su_idx u) \/ su_next u <= 0) ->
+  (sempty (su_hash u) = true \/ su_hash u = rs_hash sp) ->
+  wl_canary w = su_canary_rev u ->
+  forall s' v, o_status m = Some s' -> rp_sub s' = Some v ->
+  (su_idx v = su_idx u /\ su_state v = su_state u) \/
+  gated_sub_bg sp (observed_sub w u) w (synced_br (observed_sub w u) br) v = true.
+Proof.
+  intros H Hph Hdel Hprog Hu Hnext Hhash Hrev s' v Hs' Hv.
+  pose proof (observed_sub_keeps w u) as Hk. cbn zeta in Hk. destruct Hk as [Ki [Kst [Kn [Ke [Kh [Kc Kf]]]]]].
+  unfold reconcile_bg in H. destruct (calc_status sp st w) as [|s] eqn:Hcalc.
+  { unfold reconcile in H. rewrite Hcalc in H. injection H as <-. cbn in Hs'. discriminate. }
+  rewrite Hph in H.
+  destruct (progressing_bg sp st s w br) as [| |po] eqn:Hp; try discriminate.
+  { injection H as <-. cbn in Hs'. discriminate. }
+  injection H as <-. cbn in Hs'. injection Hs' as <-.
+  unfold progressing_bg in Hp. rewrite Hprog in Hp.
+  destruct (calc_status_sub _ _ _ _ _ Hcalc Hu Hdel Hph) as [Hnone|[Hsome Hsp]].
+  - destruct (negb (wl_exists w) || negb (wl_consistent w)).
+    + injection Hp as <-. cbn in Hv. congruence.
+    + unfold in_rolling_bg in Hp. rewrite Hu, Hnone in Hp. discriminate.
+  - destruct (negb (wl_exists w) || negb (wl_consistent w)).
+    { injection Hp as <-. cbn in Hv. rewrite Hsome in Hv. injection Hv as <-. left. auto. }
+    unfold in_rolling_bg in Hp. rewrite Hu, Hsome in Hp.
+    assert (Hrd : negb (String.eqb (wl_canary w) (su_canary_rev u)) = false) by (rewrite Hrev, String.eqb_refl; reflexivity).
+    rewrite Hrd in Hp. rewrite !andb_false_r in Hp. cbn [andb orb] in Hp.
+    destruct (rs_paused sp) eqn:Hpa.
+    { cbn [orb] in Hp. rewrite (in_rolling_stays sp st s w br po u Hu Hsome Hrev Hhash (or_introl Hpa) Hp) in Hv.
+      injection Hv as <-. left. auto. }
+    cbn [orb] in Hp.
+    assert (Hhc : negb (sempty (su_hash u)) && negb (String.eqb (su_hash u) (rs_hash sp)) = false).
+    { destruct Hhash as [He|He]; [rewrite He; reflexivity|rewrite He, String.eqb_refl; apply andb_false_r]. }
+    rewrite Hhc in Hp. cbn [orb] in Hp.
+    destruct (sstate_eqb (su_state (observed_sub w u)) StCompleted) eqn:Hc.
+    { apply sstate_eqb_eq in Hc.
+      rewrite (in_rolling_stays sp st s w br po u Hu Hsome Hrev Hhash (or_intror Hc) Hp) in Hv. injection Hv as <-. left. auto. }
+    set (nx := if (su_next u <=? 0) || (nsteps sp <? su_next u) then next_index (nsteps sp) (su_idx u) else su_next u) in *.
+    set (u2 := upd_sub (observed_sub w u) (su_idx (observed_sub w u)) nx (su_state (observed_sub w u)) (su_fin (observed_sub w u)) (su_elapsed (observed_sub w u))) in *.
+    destruct (run_bg sp u2 w br) as [|u' br' rq] eqn:Hrun; [discriminate|].
+    injection Hp as <-. cbn in Hv. injection Hv as <-.
+    assert (Hnx : su_next u2 = next_index (nsteps sp) (su_idx u2) \/ su_next u2 <= 0).
+    { left. unfold u2. cbn. rewrite Ki. unfold nx. destruct Hnext as [Hx|Hx].
+      - rewrite Hx. match goal with |- (if ?c then _ else _) = _ => destruct c; reflexivity end.
+      - replace (su_next u <=? 0) with true by (symmetry; apply Z.leb_le; exact Hx). reflexivity. }
+    destruct (run_bg_gated _ _ _ _ _ _ _ Hrun Hnx) as [[A B]|G].
+    + left. unfold u2 in A, B. cbn in A, B. rewrite A, B, Ki, Kst. auto.
+    + right. rewrite (gated_sub_bg_ext sp (observed_sub w u) u2 w _ u') by (unfold u2; cbn; auto).
+      rewrite (synced_br_ext (observed_sub w u) u2 br) by (unfold u2; cbn; auto). exact G.
+Qed.
+
+(* in particular: a pause without a duration is never left by a reconcile, on any step -- the last one included *)
+Corollary bg_manual_pause_waits sp st w br m u x y cur :
+  reconcile_bg sp st w br = ROut m ->
+  rp_phase st = RpProgressing -> rs_deleting sp = false ->
+  rp_prog st = Some (PrInRolling, x, y) -> rp_sub st = Some u ->
+  (su_next u = next_index (nsteps sp) (su_idx u) \/ su_next u <= 0) ->
+  (sempty (su_hash u) = true \/ su_hash u = rs_hash sp) ->
+  wl_canary w = su_canary_rev u ->
+  su_state u = StPaused -> get_step sp (su_idx u) = Some cur -> sp_pause cur = None ->
+  forall s' v, o_status m = Some s' -> rp_sub s' = Some v -> su_idx v = su_idx u /\ su_state v = StPaused.
+Proof.
+  intros H Hph Hdel Hprog Hu Hnext Hhash Hrev Hst Hcur Hp s' v Hs' Hv.
+  destruct (bg_steps_are_gated sp st w br m u x y H Hph Hdel Hprog Hu Hnext Hhash Hrev s' v Hs' Hv) as [[A B]|G].
+  - rewrite <- Hst. auto.
+  - exfalso. pose proof (observed_sub_keeps w u) as Hk. cbn zeta in Hk. destruct Hk as [Ki [Kst _]].
+    unfold gated_sub_bg in G. rewrite Kst, Hst, Ki, Hcur, Hp in G. destruct (su_state v); try discriminate.
+    rewrite andb_false_r in G. discriminate.
+Qed.
